@@ -34,7 +34,8 @@ def RULE(tier):
         "PossDupFlag, not SequenceReset) carry distinct, strictly increasing MsgSeqNums; a PossDup frame repeats a number sent "
         "before with the same body; no task raised anything but FIXConnectionError (in particular no DuplicateSeqNoError); every "
         "new frame is journaled under its number byte for byte; live and stored next_num_out = highest new number + 1; a served "
-        "ResendRequest retransmits every replayable application message journaled before it, whatever ran in between. "
+        "ResendRequest retransmits every replayable application message journaled before it, whatever ran in between, and no GapFill "
+        "ever covers the number of a replayable application message. "
         "Non-trivial = schedule in which two tasks were suspended at the same time; distinct by (task set, choice sequence)."
     )
 
@@ -272,6 +273,16 @@ def execute(acc, tasks, schedule, origin, judge=True):
                 row = e
             if row != fr:
                 bad("not-journaled-under-its-number", f"new frame {n}: journal has {row!r:.160}, wire had {fr!r:.160}")
+        # a SequenceReset-GapFill may only cover numbers that are not replayable application messages
+        replayable = {n for n, body in sent.items() if dict(body).get("35") == "D" and "NOREPLAY" not in dict(body).get("58", "")}
+        for fr in frames:
+            p = ref_parse(fr)
+            if ref_get(p, 35) == "4" and ref_get(p, 123) == "Y":
+                lo, hi = int(ref_get(p, 34)), int(ref_get(p, 36)) - 1
+                hit = sorted(n for n in replayable if lo <= n <= hi)
+                if hit:
+                    bad("gapfill-covers-replayable-message", f"GapFill {lo}->{hi + 1} skips the replayable application message(s) {hit} (a peer honouring it never receives them)")
+                    break
         if s.expected_replay is not None and done:
             retr = set()
             for fr in frames:
